@@ -6,22 +6,37 @@ network.  The world is built the way HippoClient.login() builds it (session from
 open_circuit) minus the HTTP login and the handshake; the circuit is marked alive as region.connect() does after the
 handshake ("live circuit" in the statement).
 
+World configurations (each searched separately; a witness names its cfg):
+  solo          region-level StartPingCheck Event holds only the built-in async handler; sync subscribers: session-level
+                ChatFromSimulator / StartPingCheck / "*", region-level ChatFromSimulator / "*".  Full alphabet.
+  shared        as solo plus a sync region-level StartPingCheck subscriber (shares the Event with the async handler).
+                Peer packets are pings only (the chat half would repeat cfg solo).
+  prehandshake  circuit left as open_circuit() creates it (is_alive=False: UseCircuitCode still in flight); no peer
+                packets, depth-1.  The statement says "live circuit" only for the id clause, so whether its send clauses
+                cover this phase is open -> violations carry their own site (..._attempt_resends:circuit-not-alive).
+
 Alphabet (events are tuples; the last field of R/AP/AA is the deviation tag):
   ("R", p, kind, rel, resent, defer, dev)
         peer datagram with packet id p in {1,2,3}; kind "chat" (ChatFromSimulator) | "ping" (StartPingCheck);
         rel = RELIABLE flag; resent = RESENT flag (reliable only).  The content of an id is fixed by its first
         arrival (a peer never reuses an id for another message).  Default: next id in order, no RESENT.
-        Deviations: duplicate / retransmission of an id already received (with or without RESENT), gap (p > max+1),
-        late (p < max), RESENT on first arrival, defer=1 = "deliver this datagram and do NOT run pending tasks
-        before the next event" (only offered for pings: the async _handle_ping_check task stays pending).
+        Deviations: duplicate / retransmission of an id already received (with or without RESENT), gap (p = max+2),
+        late (largest missing id below max) -- out-of-order arrivals carry one kind only, since order acts through the
+        id alone --, RESENT on first arrival (chat; ping in cfg shared), defer=1 = "deliver this datagram and do NOT run
+        pending tasks before the next event" (only offered for pings: the async _handle_ping_check task stays pending).
   ("AP", ids, dev)          peer acks the client's ids with an (unreliable, fresh id >= 100) PacketAck message
   ("AA", carrier, ids, dev) peer acks via *appended* acks; carrier 0 = fresh unreliable ChatFromSimulator,
-                            carrier p = retransmission (RESENT) of the lowest already received reliable id   [dev]
-        ids = any non-empty subset of the client's outstanding reliable ids (default), or one stale id: the newest
-        issued id that is not outstanding, or the id the client will issue next                              [dev]
-  ("SR",) client circuit.send_reliable(ChatFromViewer)      ("SU",) client circuit.send(ChatFromViewer) unreliable
+                            carrier p = retransmission (RESENT) of the lowest already received reliable id, acking
+                            all outstanding ids                                                               [dev]
+        ids = any non-empty subset of the client's outstanding reliable ids (default), or (while something is
+        outstanding) the newest issued id that is not outstanding [dev], or (AP only) the id the client will issue
+        next [dev]
+  ("SR",) client circuit.send_reliable(ChatFromViewer), at most MAX_SR per history
+  ("SU",) client circuit.send(ChatFromViewer) unreliable, at most MAX_SU per history
   ("T", "short"|"past"|"long")  virtual time advances by interval/3 | interval+0.5 | (budget-1)*interval seconds
-        (interval = circuit.resend_every, budget = ReliableResendInfo.tries_left default; both read from the code).
+        (interval = circuit.resend_every, budget = ReliableResendInfo.tries_left default; both read from the code);
+        while no reliable send is outstanding only the probe ("T","past") is offered (time acts through the resend
+        poll alone; the probe keeps checking that nothing is transmitted again).
 After every non-deferred event the loop is drained (run_ready), so the default schedule is "tasks run at once".
 
 Reference model (plain dict/list): content + received flag per peer id; per client reliable send: id, wire bytes,
@@ -52,11 +67,14 @@ once" (the listed mutant "track_reliable checks after append" is invisible other
 (2) Time: the cadence/fail clauses allow a lateness of one resend-poll period (0.5 s, HippoClient._attempt_resends)
 because the statement does not fix the poll granularity.  (3) When the first search finds violations, a second search
 runs with exactly those (clause, site) pairs muted so that histories *behind* them are still explored (the explorer
-never extends a violating history); the muted pairs are listed in coverage_extra.
+never extends a violating history); the muted pairs are listed in coverage_extra.  (4) Alphabet economies listed
+above (one kind out of order, one duplicate carrier, MAX_SR/MAX_SU, probe tick) keep depth 7 inside the budget.
+(5) HippoClientProtocol.__init__ re-parses message.xml per instance; worlds share one parsed (read-only) table.
 """
 from __future__ import annotations
 
 import dataclasses
+import time
 from typing import Any, Dict, List, Optional, Tuple
 
 import hippolyzer.lib.base.message.circuit as circuit_mod
@@ -93,6 +111,8 @@ SITE_SESSION = "HippoClientProtocol.datagram_received:session-handler"
 SITE_REGION = "HippoClientProtocol.datagram_received:region-handler"
 SITE_PING = "HippoClientRegion._handle_ping_check"
 SITE_ACK = "HippoClientProtocol.datagram_received:send_acks"
+SITE_RESEND = "Circuit.resend_unacked"
+SITE_RESEND_NOT_ALIVE = "HippoClient._attempt_resends:circuit-not-alive"
 
 
 # ---------------------------------------------------------------------------------------------------------
@@ -209,7 +229,8 @@ class World:
         assert self.session.open_circuit(ADDR)
         self.region = self.session.regions[-1]
         self.circuit = self.region.circuit
-        self.circuit.is_alive = True  # region.connect() sets this after the UseCircuitCode ack
+        if cfg != "prehandshake":
+            self.circuit.is_alive = True  # region.connect() sets this after the UseCircuitCode ack
         self.interval = float(self.circuit.resend_every)
         self.ticks = {"short": self.interval / 3.0, "past": self.interval + 0.5, "long": (BUDGET - 1) * self.interval}
         # --- subscribers: sync, both levels, by name and wildcard (the async one is the built-in ping handler) ----
@@ -249,9 +270,10 @@ class Harness:
     copyable = False
 
     def __init__(self, cfg: str = "solo", mute=(), max_sr: int = MAX_SR, max_su: int = MAX_SU):
-        assert cfg in ("solo", "shared")
+        assert cfg in ("solo", "shared", "prehandshake")
         self.cfg = cfg
-        self.kinds = ("chat", "ping") if cfg == "solo" else ("ping",)
+        self.kinds = {"solo": ("chat", "ping"), "shared": ("ping",), "prehandshake": ()}[cfg]
+        self.site_resend = SITE_RESEND if cfg != "prehandshake" else SITE_RESEND_NOT_ALIVE
         self.mute = set(tuple(m) for m in mute)
         self.max_sr, self.max_su = max_sr, max_su
 
@@ -456,11 +478,11 @@ class Harness:
                 continue
             if now - r["tx"][-1] >= w.interval + POLL_SLACK + EPS:
                 if len(r["tx"]) < BUDGET:
-                    self.bad(w, "retransmit-cadence", "Circuit.resend_unacked",
+                    self.bad(w, "retransmit-cadence", self.site_resend,
                              f"id {r['id']} unacked, last transmitted at t={r['tx'][-1]}, now t={now}: no retransmission "
                              f"within interval {w.interval}s (+{POLL_SLACK}s poll); {len(r['tx'])}/{BUDGET} tries used")
                 else:
-                    self.bad(w, "fail-on-budget", "Circuit.resend_unacked",
+                    self.bad(w, "fail-on-budget", self.site_resend,
                              f"id {r['id']}: all {BUDGET} transmissions unanswered, last at t={r['tx'][-1]}, now t={now}, "
                              f"future still pending")
                 r["status"] = "broken"
@@ -609,8 +631,8 @@ def run(run: Run):
         "and ages, packet_id_base, loop ready/timer phases, model); non-trivial = distinct states whose history contains a "
         "repeated receipt of a reliable id, a retransmission by the client, or a completed reliable send")
     run.assumptions += [
-        "circuit is live (is_alive=True as after the handshake); one region; packet-id wrap-around and the 1000-entry "
-        "dedupe window are far outside the universe",
+        "cfg solo/shared: circuit is live (is_alive=True as after the handshake); one region; packet-id wrap-around and "
+        "the 1000-entry dedupe window are far outside the universe",
         "a peer never reuses a packet id for a different message; ack carriers use fresh ids >= 100",
         "acks / ping replies are demanded by the next quiescent point of the loop, not synchronously",
         f"cadence and failure time are allowed to be late by one resend-poll period ({POLL_SLACK}s); never early",
@@ -620,15 +642,19 @@ def run(run: Run):
     run.assumptions.append(
         f"at most {MAX_SR} send_reliable and {MAX_SU} unreliable client sends per history; subscriber configurations: "
         "'solo' (region-level StartPingCheck Event holds only the built-in async handler; chat+ping alphabet) and "
-        "'shared' (a sync region-level StartPingCheck subscriber shares that Event; ping-only alphabet)")
+        "'shared' (a sync region-level StartPingCheck subscriber shares that Event; ping-only alphabet); plus "
+        "'prehandshake' (circuit left as open_circuit() creates it, is_alive=False, i.e. while UseCircuitCode is in "
+        "flight; no peer packets, depth-1): its violations carry the site "
+        f"{SITE_RESEND_NOT_ALIVE!r} because the statement's wording ('live circuit') may exclude that phase")
     muted_all = {}
-    for cfg in ("solo", "shared"):
+    for cfg in ("solo", "shared", "prehandshake"):
         n0, keys0 = len(run.violations), dict(run._viol_keys)
-        explore.bfs(run, Harness(cfg), depth=depth, dev_bound=devb, label=f"cfg={cfg} all-clauses ")
+        d = depth if cfg != "prehandshake" else depth - 1
+        explore.bfs(run, Harness(cfg), depth=d, dev_bound=devb, label=f"cfg={cfg} all-clauses ")
         found = sorted(k for k, n in run._viol_keys.items() if n > keys0.get(k, 0))
         if found:
             # second pass: the explorer never extends a violating history, so explore what lies behind the ones found
-            explore.bfs(run, Harness(cfg, mute=found), depth=depth, dev_bound=devb,
+            explore.bfs(run, Harness(cfg, mute=found), depth=d, dev_bound=devb,
                         label=f"cfg={cfg} behind-found-violations ")
             muted_all[cfg] = [list(f) for f in found]
         for v in run.violations[n0:]:
@@ -637,6 +663,7 @@ def run(run: Run):
     run.coverage_extra["depth"] = depth
     run.coverage_extra["deviation_bound"] = devb
     run.coverage_extra["retry_budget"] = BUDGET
+    run.coverage_extra["wall"] = f"{time.time() - run.t0:.0f}s"
     for v in run.violations:  # shrink witnesses (replay applies every step; muting is only an explorer concern)
         try:
             small = explore._minimise_tuples(Harness(v["witness"]["cfg"]), v["witness"]["history"], v["clause"], v["site"])
